@@ -233,6 +233,11 @@ fn sweep(n: usize, level: Level) -> Box<dyn Sweep> {
     Box::new(ProgSweep { label: "programs".into(), n, level, judge: Box::new(judge), verdict_on_crash: false })
 }
 
+/// the same space with the program starting at line 0 (line 0 is a legal target)
+fn sweep0(n: usize, level: Level) -> Box<dyn Sweep> {
+    Box::new(ProgSweep { label: "programs-from-line-0".into(), n, level, judge: Box::new(judge), verdict_on_crash: false })
+}
+
 fn skel(level: Level) -> Box<dyn Sweep> {
     Box::new(super::progspace::SkeletonSweep { label: "programs".into(), level, judge: Box::new(judge) })
 }
@@ -247,6 +252,8 @@ impl Check for C01 {
                 sweep(1, Level::Full),
                 sweep(2, Level::Full),
                 skel(Level::Medium),
+                sweep0(2, Level::Full),
+                sweep0(3, Level::Core),
                 sweep(3, Level::Medium),
                 sweep(4, Level::Core),
             ],
@@ -254,6 +261,8 @@ impl Check for C01 {
                 sweep(1, Level::Full),
                 sweep(2, Level::Full),
                 skel(Level::Full),
+                sweep0(2, Level::Full),
+                sweep0(3, Level::Medium),
                 sweep(3, Level::Full),
                 sweep(4, Level::Medium),
                 sweep(5, Level::Core),
